@@ -10,6 +10,8 @@ HYDRO_SETS = [
     ["density", "pressure"],
     ["density", "momentum", "internal_energy", "temperature"],
     ["density", "velocity", "thermal_pressure", "radiative_energy_1", "passive_scalar_2"],
+    # names that are proper prefixes of other names (a name in a variable list means that variable, not a family)
+    ["density", "velocity", "pressure", "pressure_cr", "scalar_1", "scalar_10", "radiative_energy_1", "radiative_energy_12"],
 ]
 RT_SETS = [[], [], ["photon_density_1", "photon_flux_1"], ["photon_density_1", "photon_flux_1", "photon_density_2", "photon_flux_2"]]
 PART_DESCS = [
@@ -108,7 +110,7 @@ def finish(rng, octs, ndim, ncpu, nboundary, levelmax, ghost_p=0.4, **kw):
     return cfg
 
 
-NOREQ = {"lv": [], "pos": [[], [], []], "val": [], "cpus": []}
+NOREQ = {"lv": [], "pos": [[], [], []], "val": [], "cpus": [], "dxl": []}
 
 
 def add_requests(rng, cfg, tier):
@@ -136,6 +138,14 @@ def add_requests(rng, cfg, tier):
         # predicates with a gap: the tree is truncated at the highest accepted level, the rejected level in between is left out
         add(dict(NOREQ, lv=[1, L, L - 1]), kind="level", form="ne", k=L - 1)
         add(dict(NOREQ, lv=[1, 3, 2]), kind="level", form="gap", a=1, b=3)
+    if L >= 2:
+        # a predicate on the cell size filters the leaves (no truncation); together with a level predicate that disagrees
+        # with it on a level that is read, in both orders of the selection dict
+        add(dict(NOREQ, dxl=[1, L - 1]), kind="dx", a=1, b=L - 1)
+        add(dict(NOREQ, lv=[1, L], dxl=[1, L - 1]), kind="dx+level", form="le", k=L, a=1, b=L - 1, order="ld")
+        add(dict(NOREQ, lv=[1, L - 1], dxl=[2, L]), kind="dx+level", form="le", k=L - 1, a=2, b=L, order="dl")
+    if L >= 3:
+        add(dict(NOREQ, lv=[1, L - 1], dxl=[1, L - 2]), kind="dx+level", form="lt", k=L, a=1, b=L - 2, order="dl")
     # value predicate on the first hydro variable (tokens are distinct, pick a median threshold)
     toks = sorted(((o + 1) * 8 + ind) * 16 + 1 for o in range(len(c["octs"])) for ind in range(2 ** c["ndim"]))
     thr = toks[len(toks) // 2]
@@ -196,6 +206,10 @@ def add_requests(rng, cfg, tier):
     if vel:
         calls.append({"req": 1, "kind": "vars", "group": "mesh", "vars": vel})
     calls.append({"req": 1, "kind": "vars", "group": "mesh", "vars": []})
+    short = [n for n in names if any(m != n and m.startswith(n) for m in names)]
+    if short:
+        calls.append({"req": 1, "kind": "vars", "group": "mesh", "vars": short})                 # the shorter names, none of the longer ones
+        calls.append({"req": 1, "kind": "vars", "group": "mesh", "vars": [n for n in names if n not in short]})
     if c["haspart"]:
         pn = [d[0] for d in c["part"]["desc"]]
         for _ in range(2):
